@@ -267,7 +267,10 @@ class C10(Harness):
                 for pipe in ('coro', 'agen'):
                     for watch in (True, False):
                         # (the async-generator pipeline with three steps has by far the largest schedule tree: one deviation less)
-                        out.append({'rx': True, 'program': list(prog), 'pipe': pipe, 'watch': watch, 'budget': B if (n <= 2 or pipe == 'coro') else B - 1})
+                        budget = B if (n <= 2 or pipe == 'coro') else B - 1
+                        if n >= 4 and watch:
+                            budget -= 1          # (watched pipelines of four steps have schedule trees of > 10^5 nodes per program at the full budget)
+                        out.append({'rx': True, 'program': list(prog), 'pipe': pipe, 'watch': watch, 'budget': budget})
         return out
 
     def expected_final(self, program):
